@@ -174,3 +174,11 @@ Lemma quadratic_componentwise_simultaneous_refuted_1024 :
     forall a' c' : C, a' <> RtoC 0 ->
       ~ ((a' * r0 * r0 + RtoC 0 * r0 + c')%C = RtoC 0 /\ (a' * r1 * r1 + RtoC 0 * r1 + c')%C = RtoC 0).
 Proof. apply quadratic_componentwise_simultaneous_refuted_lemma. lra. Qed.
+
+(* the local hypotheses hold wherever the global ones do *)
+Lemma quad_ops_ok_nonvacuous :
+  (0 <= / 1024 <= / 100) /\ RtoC 1 <> RtoC 0 /\ quad_ops_ok (/ 1024) (pert_ops (/ 1024)) (RtoC 1) (RtoC (-5)) (RtoC 2).
+Proof.
+  assert (N : RtoC 1 <> RtoC 0) by (intros H; apply RtoC_inj in H; lra).
+  split; [lra|]. split; [exact N|]. apply std_model_ops_ok; [exact N | apply pert_std_model; lra].
+Qed.
